@@ -1291,7 +1291,11 @@ class EigenvalueCorrectedShampooPreconditionerList(
                     try:
                         computed_eigenvectors = matrix_eigenvectors(
                             A=factor_matrix,
-                            eigenvectors_estimate=factor_matrix_eigenvectors,
+                            # NOTE: The estimate is stored in the dtype of the block, whereas the
+                            # factor matrix is stored in the factor matrix dtype.
+                            eigenvectors_estimate=factor_matrix_eigenvectors.to(
+                                dtype=factor_matrix.dtype
+                            ),
                             eigenvector_computation_config=eigenvector_computation_config,
                             is_diagonal=bool(is_factor_matrix_diagonal),
                         )
